@@ -147,6 +147,10 @@ def directed_cases(seed: int, tier: str) -> typing.List[dict]:
         "api-no-overwrite-after-wipe": [
             {"op": "api_session", "opts": {}, "steps": [{"k": "gen"}, {"k": "gen", "allow_overwrite": False}, {"k": "wipe"}, {"k": "gen", "allow_overwrite": False}, {"k": "gen", "which": "support"}]},
         ],
+        "copied-support-header-with-formatter": [
+            {"op": "generate", "opts": {"extra_support": "readonly", "pp_prog": True, "file_mode": 0o644}},
+            {"op": "generate", "opts": {"extra_support": "readonly", "pp_prog": "rename", "file_mode": 0o444}},
+        ],
         "omit-then-full": [
             {"op": "generate", "opts": {"omit_ser": True}},
             {"op": "generate", "opts": {}},
